@@ -419,6 +419,11 @@ def run_traj(desc, ctx):
         ctx.nontrivial(('poly', ref))
         if n != len(ref) or len(ref) != 132 * npoly or [(w[0], w[1]) for w in h.writes] != [(start, ref)] or fin != [start]:
             ctx.violate('traj:poly4d-image-differs-from-layout', {'pieces': npoly, 'returned': n, 'written': [(w[0], len(w[1])) for w in h.writes]})
+        else:
+            # the same pieces uploaded again to a second slot
+            nb = mem.write_data(lambda m, a: fin.append(a), start_addr=start + 2048)
+            if nb != len(ref) or [(w[0], w[1]) for w in h.writes] != [(start, ref), (start + 2048, ref)]:
+                ctx.violate('traj:poly4d-image-differs-from-layout:repeated-upload', {'pieces': npoly, 'returned': nb})
         # compressed trajectory: start + segments concatenated
         h2 = MemHandler(size=8192)
         mem2 = TrajectoryMemory(id=3, type=0x12, size=8192, mem_handler=h2)
@@ -500,10 +505,11 @@ def run_traj(desc, ctx):
                 ref3 += bytes([t, led >> 8, led & 0xFF, extra])
         ref3 += bytes(4)
         lt.write_data(lambda m, a: None)
+        lt.write_data(lambda m, a: None)
         ctx.evals()
         ctx.count('mon.led_timings')
         ctx.nontrivial(('ledt', ref3))
-        if [(w[0], w[1]) for w in h3.writes] != [(0, ref3)]:
+        if [(w[0], w[1]) for w in h3.writes] != [(0, ref3), (0, ref3)]:
             ctx.violate('ledtiming:sequence-image-differs-from-layout', {'written': h3.writes[0][1].hex() if h3.writes else None,
                                                                         'want': ref3.hex()})
         if it == 0:
